@@ -478,6 +478,11 @@ func (q dec) divBasic(u, v dec) {
 			// cancel out and don't affect u[j+n].
 			if n < qhl {
 				u[j+n] += c
+				if u[j+n] >= _DB {
+					// decimal wrap: the carry out of the add-back
+					// cancels the borrow of the subtraction.
+					u[j+n] -= _DB
+				}
 			}
 			qhat--
 		}
